@@ -126,6 +126,8 @@ class Prov:
             args = it[2]
             if op(f) == "builtin" and name in PASS_THROUGH_CALLS and args:
                 return self.elems(args[0], depth + 1)
+            if op(f) == "attr" and f[1] == ("builtin", "dict") and name == "fromkeys" and args:
+                return self.elems(args[0], depth + 1)  # the distinct elements, in order of first occurrence
             if op(f) == "ext" and f[1] == "itertools.product":
                 return [("T", tuple(self.elems(a, depth + 1) for a in args))]
             if op(f) == "ext" and f[1] in ("itertools.combinations", "itertools.permutations") and len(args) == 2 and is_const(args[1]):
@@ -729,12 +731,112 @@ def truthiness_tests(t) -> list[tuple]:
     return [t]
 
 
+def classes_with_falsy_instances(cx: Cx) -> dict:
+    """Package classes whose ``__bool__`` can answer False for an instance with legitimate field values:
+    {class name: (ClassInfo, verdict, text)} with verdict True (can be False), False (never) or None (not decided).
+    A NamedTuple / pydantic model without ``__bool__`` is always truthy - which is what `if reference:` on a
+    ``ReferenceTuple | None`` relies on."""
+    import ast as _ast
+
+    from .terms import is_const, show
+
+    out = {}
+    for ci in cx.model.classes.values():
+        m = ci.methods.get("__bool__")
+        if m is None:
+            continue
+        me = ("param", m.params[0].name) if m.params else None
+        str_fields = {n.target.id for n in ci.node.body if isinstance(n, _ast.AnnAssign) and isinstance(n.target, _ast.Name) and _ast.unparse(n.annotation).replace(" ", "") in ("str", "Prefix")}
+
+        def may_be_false(t):
+            o = op(t)
+            if o == "const":
+                return not t[1]
+            if o == "truth":
+                return may_be_false(t[1])
+            if o == "not":
+                return None
+            if o == "cmp" and t[1] in ("is not", "!=") and is_const(t[3], None) and op(t[2]) == "attr" and t[2][1] == me and t[2][2] in str_fields:
+                return False  # a field declared str is never None
+            if o == "and":
+                vs = [may_be_false(x) for x in t[1]]
+                return True if any(v is True for v in vs) else None if any(v is None for v in vs) else False
+            if o == "or":
+                vs = [may_be_false(x) for x in t[1]]
+                return False if any(v is False for v in vs) else None if any(v is None for v in vs) else True
+            if o == "ifexp":
+                vs = [may_be_false(t[2]), may_be_false(t[3])]
+                return True if any(v is True for v in vs) else None if any(v is None for v in vs) else False
+            if o == "call" and t[1] == ("builtin", "bool") and len(t[2]) == 1:
+                return may_be_false(t[2][0])
+            if o == "call" and t[1] in (("builtin", "all"), ("builtin", "any")) and t[2] == (me,):
+                return True  # truthiness of the fields: '' is a legitimate prefix / identifier
+            if o == "attr" and t[1] == me and t[2] in str_fields:
+                return True
+            if o == "tuple":
+                return not t[1]
+            return None
+
+        try:
+            rets = [t for t, _ in cx.summary(m).returns()]
+        except Exception:  # noqa: BLE001
+            rets = []
+        vs = [may_be_false(t) for t in rets] or [None]
+        verdict = True if any(v is True for v in vs) else None if any(v is None for v in vs) else False
+        out[ci.name] = (ci, verdict, "; ".join(show(t)[:60] for t in rets))
+    return out
+
+
+def optional_instance_methods(cx: Cx, cls_names) -> dict:
+    """Converter methods whose return annotation is ``<cls> | None``: {method name: class name}."""
+    import ast as _ast
+
+    out = {}
+    for m in cx.model.cls(CONV).methods.values():
+        r = m.node.returns
+        if r is None:
+            continue
+        parts = set(_ast.unparse(r).replace(" ", "").replace("Optional[", "").rstrip("]").split("|"))
+        for c in cls_names:
+            if c in parts and ("None" in parts or "Optional[" in _ast.unparse(r)):
+                out[m.name] = c
+    return out
+
+
 def scan_none_discipline(cx: Cx, ob: Ob, fns: list[FunctionInfo]) -> None:
     """LOOKUP: Optional[str] lookups whose range contains '' must be tested with ``is None``."""
     opt = optional_str_methods(cx)
+    falsy = classes_with_falsy_instances(cx)
+    opt_inst = optional_instance_methods(cx, set(falsy)) if falsy else {}
     for fn in fns:
         s = cx.summary(fn, ob.id)
         seen = set()
+        if opt_inst:
+            # `if reference:` on a `Cls | None` answer is a None-test only as long as every instance is truthy
+            for ev, ctx in s.walk():
+                if ev.kind != "guard":
+                    continue
+                for tt in truthiness_tests(ev.a):
+                    if not (op(tt) == "call" and op(tt[1]) == "attr" and callee_name(tt) in opt_inst):
+                        continue
+                    cname = opt_inst[callee_name(tt)]
+                    ci_, verdict, text = falsy[cname]
+                    key = (fn.qualname, cname, ev.line)
+                    if key in seen:
+                        continue
+                    seen.add(key)
+                    if verdict is True:
+                        ob.violate(
+                            fn.qualname,
+                            where(fn, ev.line),
+                            f"the `{cname} | None` answer of {callee_name(tt)}(...) is tested by truthiness, and {cname}.__bool__ (`{text}`) is False for instances with an empty prefix or an empty identifier: a successful answer is taken for 'no match' - the empty prefix (rdflib's default namespace) and the empty identifier (a URI equal to its URI prefix) are legitimate",
+                            witness=f"condition `{show(ev.a)[:60]}`; e.g. compress of a URI that equals a registered URI prefix, or lies under the record whose prefix is ''",
+                            detail=f"truthiness:{cname}.__bool__",
+                        )
+                    elif verdict is None:
+                        ob.undecide(f"{fn.name} tests the `{cname} | None` answer of {callee_name(tt)}(...) by truthiness and {cname}.__bool__ (`{text}`) was not decided")
+                    else:
+                        ob.site(f"{where(fn, ev.line)} {fn.qualname}", f"truthiness of a {cname} | None answer; {cname}.__bool__ is never False for an instance")
         for ev, ctx in s.walk():
             conds = []
             if ev.kind == "guard":
@@ -940,6 +1042,56 @@ def inline_methods(cx: Cx, t, self_term, cls_q: str, names: set[str], depth: int
                 mapping = {("param", k): inline_methods(cx, v, self_term, cls_q, names, depth + 1) for k, v in b.items()}
                 return inline_methods(cx, substitute(body, mapping), self_term, cls_q, names, depth + 1)
     return tuple(inline_methods(cx, x, self_term, cls_q, names, depth) if isinstance(x, tuple) else x for x in t)
+
+
+def new_keyword_bindings(cx, fn, in_scope) -> list[dict]:
+    """How the call sites in scope run ``fn``: for every call of ``fn`` inside a function for which
+    ``in_scope(caller)`` holds, the literal values it passes for keywords the pinned tree does not have (an opt-in
+    keyword of a shared helper that one caller switches off and another leaves on).  Distinct binding sets, [{}] if
+    there is no such keyword or no call in scope."""
+    import ast as _ast
+
+    from .summ import KNOWN_SIGNATURES
+
+    sig = KNOWN_SIGNATURES.get(fn.qualname)
+    if sig is None:
+        return [{}]
+    new = {p.name: p.default.value for p in fn.params if p.name not in sig and isinstance(p.default, _ast.Constant)}
+    if not new:
+        return [{}]
+    out: list[dict] = []
+    for g in cx.model.functions.values():
+        if not in_scope(g):
+            continue
+        for n in _ast.walk(g.node):
+            if isinstance(n, _ast.Call) and (isinstance(n.func, _ast.Name) and n.func.id == fn.name or isinstance(n.func, _ast.Attribute) and n.func.attr == fn.name):
+                b = {}
+                for k in n.keywords:
+                    if k.arg in new and isinstance(k.value, _ast.Constant):
+                        b[k.arg] = k.value.value
+                    elif k.arg in new or k.arg is None:
+                        b = None  # not a literal: stays symbolic
+                        break
+                if b is None:
+                    b = {}
+                else:
+                    b = {**{k_: v_ for k_, v_ in new.items()}, **b}
+                if b not in out:
+                    out.append(b)
+    return out or [{}]
+
+
+def construct_of_plain_strings(c) -> bool:
+    """``Record.model_construct(prefix=str(a), uri_prefix=str(b))``: exactly the two canonical fields, both made plain
+    strings in the call, no synonym list and no splat.  The validators that ``model_construct`` skips are vacuous for
+    such a record (empty synonym lists come from the default factories, the ``str`` conversion is what validation
+    would have done to a str subclass) and nothing mutable of the caller's is kept."""
+    if not (op(c) == "call" and not c[2]):
+        return False
+    kw = dict((k, v) for k, v in c[3] if k is not None)
+    if len(kw) != len(c[3]) or set(kw) != {"prefix", "uri_prefix"}:
+        return False
+    return all(op(v) == "call" and v[1] == ("builtin", "str") and len(v[2]) == 1 and not v[3] or (op(v) == "const" and isinstance(v[1], str)) for v in kw.values())
 
 
 def delegated_record_updates(cx: Cx, fn: FunctionInfo, fields: set) -> list[str]:
@@ -1297,6 +1449,9 @@ def state_closure(cx: Cx, ob: Ob) -> None:
             # not a shape; a single-slot cache, or one reset only on some mutation paths, is reported below.
             ob.undecide(f"{m.name} fills self.{attr}, a keyed cache of query results that _index resets unconditionally: that the key determines the answer is not decided")
             continue
+        if attr.startswith("_") and attr not in TABLES and attr not in BASE and _bookkeeping_only(cx, ob, attr):
+            ob.site(f"{where(m, ev.line)} {m.qualname}", f"self.{attr} is bookkeeping: every test of it leads to the same answer on both arms (it decides only whether something is logged)")
+            continue
         ob.violate(
             m.qualname,
             where(m, ev.line),
@@ -1619,6 +1774,72 @@ def stale_tables(cx: Cx, ob: Ob, qualnames: list[str]) -> None:
                         detail="stale-tables",
                     )
                     break
+
+
+def _bookkeeping_only(cx: Cx, ob: Ob, attr: str) -> bool:
+    """``self.<attr>`` (a private set / dict a query fills) never influences an answer: it is read only in tests whose
+    two arms end in the same outcome and differ in nothing but the update of the attribute itself and logging /
+    warning calls ("report each passed-through URI once")."""
+    from .terms import show
+
+    ci = cx.model.cls(CONV, ob.id)
+    used = False
+    for m in ci.methods.values():
+        if m.name == "__init__":
+            continue
+        src = __import__("ast").unparse(m.node)
+        if attr not in src:
+            continue
+        s = cx.summary(m, ob.id, full=True)
+        me = ("param", m.self_name)
+        slot = ("attr", me, attr)
+
+        def mentions(t):
+            return isinstance(t, tuple) and any(x == slot for x in subterms(t))
+
+        def quiet(e):
+            """an event that changes no answer: the update of the slot itself, a logging / warning call"""
+            if e.kind == "expr" and op(e.a) == "call":
+                f = e.a[1]
+                if op(f) == "attr" and f[1] == slot and f[2] in ("add", "discard", "append", "update", "setdefault"):
+                    return True
+                txt = show(f)
+                if txt.startswith(("logger.", "logging.", "warnings.warn")) or (op(f) == "ext" and f[1].startswith(("logging.", "warnings."))):
+                    return True
+            if e.kind == "store" and op(e.a) == "item" and e.a[1] == slot:
+                return True
+            return False
+
+        groups: dict = {}
+        for p_ in s.paths:
+            sig, others, first = [], [], None
+            for e in p_.events:
+                if e.body:
+                    if any(mentions(t) for pp in e.body for e2 in pp.events for t in (e2.a, e2.b)):
+                        return False  # inside a loop: not handled
+                if e.kind == "guard" and mentions(e.a):
+                    used = True
+                    if first is None:
+                        first = e.b
+                    continue
+                if quiet(e):
+                    if mentions(e.a) or mentions(e.b):
+                        used = True
+                    continue
+                if mentions(e.a) or mentions(e.b):
+                    return False  # read for something else than a test
+                if e.kind == "guard":
+                    others.append((e.a, e.b))
+                sig.append((e.kind, e.a, e.b))
+            out = p_.out[:2] if p_.out is not None else None
+            if out is not None and mentions(out[1]):
+                return False
+            if first is not None:
+                groups.setdefault((out, tuple(sig)), set()).add(first)
+        # every way through a test of the slot has a twin through the other arm that does and answers the same
+        if any(v != {True, False} for v in groups.values()):
+            return False
+    return used
 
 
 def cached_derivations(cx: Cx, ob: Ob, class_names=("Record", "Reference", "NamableReference", "NamedReference", "Converter", "ReferenceTuple")) -> None:
@@ -2110,6 +2331,8 @@ def constructor_owns_records(cx: Cx, ob: Ob) -> None:
                 ok = True  # [*records] / (*records,) build a fresh sequence
             if parent is not None and op(parent) == "cmp" and is_const(parent[3], None):
                 ok = True
+            if parent is not None and op(parent) == "comp" and len(parent[3]) == 1 and parent[3][0][1] == rp and not any(y == rp for y in subterms(parent[2])):
+                ok = True  # one pass over the argument that builds the elements of the converter's own list
             if not ok:
                 raw_uses.append((parent, ev))
             return
@@ -2148,7 +2371,7 @@ def constructor_owns_records(cx: Cx, ob: Ob) -> None:
     stored = [ev.b for ev, _ in s.distinct_events("store") if ev.a == ("attr", me, "records")]
     for v in stored:
         ob.site(f"{init.where} {init.qualname}", f"self.records = {show(v)[:60]}")
-        fresh = (op(v) == "call" and v[1] in MATERIALISE) or op(v) in ("comp", "list", "tuple", "new")
+        fresh = (op(v) == "call" and v[1] in MATERIALISE) or (op(v) == "comp" and v[1] != "gen") or op(v) in ("list", "tuple", "new")
         if not fresh and v != rp:
             ob.undecide(f"self.records is assigned `{show(v)[:60]}`: not recognisably a fresh list")
 
